@@ -88,6 +88,16 @@ def fmt_cases(ctx, rng):
             if n <= 3:
                 for h, u, r in envs[1:]:
                     cases.append("fmt %s %s %d %s" % (bh(h), bh(u), r, bh(s + b"\0")))
+    # the result string grows in steps (xstring.c XFGETS_CHUNKSIZE = 32; rank text in a 64-byte buffer): every token
+    # kind placed so that its replacement ends before, on and behind a step, with short and with long host / user
+    longenv = (b"H" * 40, b"U" * 33, 2147483647)
+    for base in (32, 64, 96, 128, 256, 1024, 4096):
+        for k in range(base - 9, base + 2):
+            for tok in (b"%h", b"%u", b"%n", b"%%", b"%x", b"%", b"%%h"):
+                for h, u, r in (envs[1], longenv):
+                    if (h, u, r) == longenv and base > 256:
+                        continue
+                    cases.append("fmt %s %s %d %s" % (bh(h), bh(u), r, bh(b"a" * k + tok + (b"" if tok == b"%" else b"zz") + b"\0")))
     nrand = 4000 if ctx.quick() else 40000
     for _ in range(nrand):
         n = rng.choice([0, 1, 2, 3, 5, 8, 13, 40, 200])
@@ -670,7 +680,21 @@ def part_b(ctx, cov, dist, rng, repo, variant, only=None):
             g["stdin"] = " ".join(rng.choice(["a", "%h", "%u-%n", "x%%y", "%x", "b7", "%h%n"]) for _ in range(rng.randrange(0, 4)))
             g["args"] = []
         return g
-    for g in ((gen() for _ in range(n)) if only is None else only):
+    def pinned():
+        """every run: each %-sequence alone, at the start, in the middle, at the end, doubled and as two arguments;
+        arguments whose result crosses the growth steps of the result string"""
+        out = []
+        toks = ["%h", "%u", "%n", "%%", "%x", "%", "", "%%h", "%h%u", "%%%", "%%%%", "%n%", "%hh", "%%u%%"]
+        for t in toks:
+            for args in ([t], ["x" + t], [t + "y"], ["x" + t + "y"], [t + t], [t, t], ["a", t, "b"]):
+                out.append({"hosts": ["h1", "n7"], "user": "bob", "args": args, "pinned": True})
+        for base in (32, 64, 1024, 4096):
+            for k in (base - 3, base - 2, base - 1, base):
+                out.append({"hosts": ["zz"], "user": None, "args": ["a" * k + "%h%n", "%u" + "b" * k + "%"], "pinned": True})
+        for line in ("", "a", "%h", "%u-%n x%%y", "%x %", "b7 %h%n  c"):
+            out.append({"hosts": ["h2", "h3"], "user": "u1", "args": [], "stdin": line, "pinned": True})
+        return out
+    for g in (itertools.chain(pinned(), (gen() for _ in range(n))) if only is None else only):
         hosts, user, args = g["hosts"], g["user"], g["args"]
         inter = g.get("stdin")
         argv = ["-R", "exec", "-w", ",".join(hosts)] + (["-l", user] if user else []) + ([] if inter is not None else [helper] + args)
